@@ -3,6 +3,8 @@
 package c13
 
 import (
+	"crypto/x509/pkix"
+	"encoding/asn1"
 	"fmt"
 	"hash/fnv"
 	"os"
@@ -41,6 +43,54 @@ func (c hcase) Key() string {
 // excluded from KDF-bearing targets and counted. An expensive-by-design KDF is
 // not a hang (DESIGN C13).
 const kdfCostLimit = 4096
+
+// kdfCost returns the largest non-negative INTEGER (saturated) found inside the
+// encryption AlgorithmIdentifier of an EncryptedPrivateKeyInfo, i.e. wherever a
+// PBES1/PBES2 iteration count or scrypt cost parameter can live. It uses the
+// same parser as the library (encoding/asn1) with maximally lenient types: the
+// outer structure is decoded exactly like pkcs8.ParsePrivateKey does (if that
+// fails the library fails too, before any KDF runs), and the parameters are
+// walked TLV by TLV, descending into every constructed element and continuing
+// with the next sibling when something inside does not parse - a superset of
+// what the library's staged asn1.Unmarshal calls can read.
+func kdfCost(in []byte) uint64 {
+	var epki struct {
+		Algo pkix.AlgorithmIdentifier
+		Data []byte
+	}
+	if _, err := asn1.Unmarshal(in, &epki); err != nil {
+		return 0
+	}
+	var m uint64
+	var walk func(b []byte, depth int)
+	walk = func(b []byte, depth int) {
+		for len(b) > 0 && depth < 40 {
+			var raw asn1.RawValue
+			rest, err := asn1.Unmarshal(b, &raw)
+			if err != nil {
+				return
+			}
+			if raw.IsCompound {
+				walk(raw.Bytes, depth+1)
+			} else if raw.Class == asn1.ClassUniversal && raw.Tag == asn1.TagInteger && len(raw.Bytes) > 0 && raw.Bytes[0]&0x80 == 0 {
+				var v uint64
+				for _, x := range raw.Bytes {
+					if v > 1<<55 {
+						v = 1 << 62
+						break
+					}
+					v = v<<8 | uint64(x)
+				}
+				if v > m {
+					m = v
+				}
+			}
+			b = rest
+		}
+	}
+	walk(epki.Algo.Parameters.FullBytes, 0)
+	return m
+}
 
 // ---------------------------------------------------------------- watchdog
 
@@ -94,7 +144,7 @@ func checkHostile(c hcase, r *h.Rec) error {
 	}
 	r.Label("group:" + t.group)
 	r.Label("kind:" + c.Kind)
-	if t.kdf && maxInteger(c.In) > kdfCostLimit {
+	if t.kdf && kdfCost(c.In) > kdfCostLimit {
 		r.Label("excluded:kdf-cost")
 		return nil
 	}
@@ -274,17 +324,17 @@ func derMutTest(t *testing.T, name string, groups ...string) {
 	})
 }
 
-func TestC13_Bytes_SM2(t *testing.T)    { byteMutTest(t, "bytes-sm2", "sm2", "ecdh", "padding") }
-func TestC13_Bytes_SM9(t *testing.T)    { byteMutTest(t, "bytes-sm9", "sm9") }
-func TestC13_Bytes_X509(t *testing.T)   { byteMutTest(t, "bytes-x509", "x509") }
-func TestC13_Bytes_PKCS8(t *testing.T)  { byteMutTest(t, "bytes-pkcs8", "pkcs8") }
-func TestC13_Bytes_PKCS7(t *testing.T)  { byteMutTest(t, "bytes-pkcs7", "pkcs7") }
-func TestC13_Bytes_CFCA(t *testing.T)   { byteMutTest(t, "bytes-cfca", "cfca") }
-func TestC13_DER_SM2SM9(t *testing.T)   { derMutTest(t, "der-sm2sm9", "sm2", "sm9", "ecdh") }
-func TestC13_DER_X509(t *testing.T)     { derMutTest(t, "der-x509", "x509") }
-func TestC13_DER_PKCS8(t *testing.T)    { derMutTest(t, "der-pkcs8", "pkcs8") }
-func TestC13_DER_PKCS7(t *testing.T)    { derMutTest(t, "der-pkcs7", "pkcs7") }
-func TestC13_DER_CFCA(t *testing.T)     { derMutTest(t, "der-cfca", "cfca") }
+func TestC13_Bytes_SM2(t *testing.T)   { byteMutTest(t, "bytes-sm2", "sm2", "ecdh", "padding") }
+func TestC13_Bytes_SM9(t *testing.T)   { byteMutTest(t, "bytes-sm9", "sm9") }
+func TestC13_Bytes_X509(t *testing.T)  { byteMutTest(t, "bytes-x509", "x509") }
+func TestC13_Bytes_PKCS8(t *testing.T) { byteMutTest(t, "bytes-pkcs8", "pkcs8") }
+func TestC13_Bytes_PKCS7(t *testing.T) { byteMutTest(t, "bytes-pkcs7", "pkcs7") }
+func TestC13_Bytes_CFCA(t *testing.T)  { byteMutTest(t, "bytes-cfca", "cfca") }
+func TestC13_DER_SM2SM9(t *testing.T)  { derMutTest(t, "der-sm2sm9", "sm2", "sm9", "ecdh") }
+func TestC13_DER_X509(t *testing.T)    { derMutTest(t, "der-x509", "x509") }
+func TestC13_DER_PKCS8(t *testing.T)   { derMutTest(t, "der-pkcs8", "pkcs8") }
+func TestC13_DER_PKCS7(t *testing.T)   { derMutTest(t, "der-pkcs7", "pkcs7") }
+func TestC13_DER_CFCA(t *testing.T)    { derMutTest(t, "der-cfca", "cfca") }
 
 // TestC13_Random composes 1..4 byte-level and structural mutations at random.
 func TestC13_Random(t *testing.T) {
@@ -353,8 +403,11 @@ func selfTestDER() error {
 	if string(out) != string(want) {
 		return fmt.Errorf("DER mutation re-encoding: got %x want %x", out, want)
 	}
-	if maxInteger(in) != 256 {
-		return fmt.Errorf("maxInteger = %d", maxInteger(in))
+	// the KDF cost filter must see an iteration count that swallowed its neighbours
+	bad := []byte{0x30, 0x30, 0x30, 0x2c, 0x06, 0x09, 0x2a, 0x86, 0x48, 0x86, 0xf7, 0x0d, 0x01, 0x05, 0x0d, 0x30, 0x1f, 0x30, 0x1d, 0x06, 0x09, 0x2a, 0x86, 0x48, 0x86, 0xf7, 0x0d, 0x01, 0x05, 0x0c,
+		0x30, 0x10, 0x04, 0x02, 0xaa, 0xbb, 0x02, 0x05, 0x04, 0x02, 0x01, 0x10, 0x30, 0x0c, 0x03, 0x41, 0x42, 0x43, 0x04, 0x00}
+	if c := kdfCost(bad); c != 0x0402011030 {
+		return fmt.Errorf("kdfCost = %#x", c)
 	}
 	_ = gen.Fill
 	return nil
